@@ -141,7 +141,18 @@ class Records(Histories):
                     [{'op': 'force_chain', 'chain': 0, 'picks': [2], 'recompute': True, 'delete': False}, {'op': 'records', 'chain': 0, 'pick': 2}]
         # the same with equal settings: the two inputs are one computation, and still two inputs
         tw = dict(tv, context=None)
-        return [c, m, r, q, n, tv, tw]
+        # configurations of the chain-construction corpus marked for it (task classes derived from one another): every task
+        # runs, base classes first, then the records are read
+        from ..suites_chain import ChainBuild
+        extra = []
+        for c0 in ChainBuild().corpus():
+            if c0.get('records'):
+                c1 = {k: v for k, v in c0.items() if k not in ('hist', 'records')}
+                n_tasks = len(c0['classes'])
+                c1['ops'] = [{'op': 'build', 'base': c0['base']}] + [{'op': 'value', 'chain': 0, 'pick': k} for k in range(n_tasks)] + \
+                            [{'op': 'records', 'chain': 0, 'pick': k} for k in range(n_tasks)]
+                extra.append(c1)
+        return [c, m, r, q, n, tv, tw] + extra
 
     def oracle(self, case, obs):
         return records_oracle(case, obs) or history_oracle(case, obs, self.checks)
@@ -452,9 +463,100 @@ class NamedConfigs(Suite):
         return repr(case)
 
 
+RESUMABLE_LOG_SRC = """
+from taskchain import Task
+from taskchain.data import ContinuesData
+
+STATE = {'n': 0, 'fail': False, 'write_first': True}
+
+class Steps(Task):              # a resumable result: writes into its work directory, may fail after that, is run again
+    def run(self) -> ContinuesData:
+        STATE['n'] += 1
+        n = STATE['n']
+        self.logger.info(f'tok {n} first')
+        d = self.get_data_object()
+        if STATE['write_first']:
+            (d.dir / f'part{n}').write_text('x')
+        if STATE['fail']:
+            raise RuntimeError('interrupted')
+        self.logger.info(f'tok {n} second')
+        self.save_to_run_info(f'rec {n}')
+        d.finished()
+        return d
+"""
+
+
+class ResumableLogs(Suite):
+    """a resumable (ContinuesData) task that fails - once or twice - after it has put files into its work directory, and
+    is then run again by the same task object, a new chain or a new process, or is forced over such a leftover: the log
+    and the record of the stored result are those of the run that finished, and of no other.  Runtime check only."""
+    name = 'logs_of_resumed_runs'
+    model = ''
+
+    def gen(self, rng, tier):
+        return [dict(failures=f, retry=r, write_first=w) for f in (1, 2) for r in ('same_object', 'new_chain', 'new_process') for w in (True, False)]
+
+    def run_impl(self, case):
+        import sys, types
+        from taskchain import Config
+        from .. import pipeline as pl
+        from .c05 import in_child
+        with pl.workspace(dict(classes=[], files={})) as (d, _):
+            name = 'tcv_resumable_logs'
+            m = types.ModuleType(name)
+            sys.modules[name] = m
+            try:
+                exec(compile(RESUMABLE_LOG_SRC, name, 'exec'), m.__dict__)
+                m.STATE['write_first'] = case['write_first']
+                task = lambda: Config(Path('data'), name='c', data={'tasks': [f'{name}.Steps']}).chain()['steps']
+
+                def scenario():
+                    t = task()
+                    m.STATE['fail'] = True
+                    for _ in range(case['failures']):
+                        try:
+                            t.value
+                        except RuntimeError:
+                            pass
+                        if case['retry'] != 'same_object':
+                            t = task()
+                    m.STATE['fail'] = False
+
+                    def finish():
+                        tt = t if case['retry'] == 'same_object' else task()
+                        tt.value
+                        return dict(n=m.STATE['n'])
+                    fin = in_child(finish) if case['retry'] == 'new_process' else finish()
+                    r = task()
+                    return dict(n=fin.get('n'), log=[l.split(' - ')[-1].strip() for l in (r.log or []) if 'tok' in l],
+                                started=sum('run started' in l for l in (r.log or [])), records=(r.run_info or {}).get('log'))
+                return in_child(scenario)
+            finally:
+                sys.modules.pop(name, None)
+
+    def oracle(self, case, obs):
+        if 'unexpected_exception' in obs:
+            return f'unexpected exception {obs["unexpected_exception"]}: {obs["text"]}'
+        if 'child_error' in obs:
+            return f'{case}: {obs["child_error"]}'
+        n = obs['n']
+        if obs['log'] != [f'tok {n} first', f'tok {n} second'] or obs['started'] > 1:
+            return (f'{case}: the run that finished is number {n}; the log of the stored result holds {obs["log"]} '
+                    f'("run started" {obs["started"]} times)')
+        if obs['records'] != [f'rec {n}']:
+            return f'{case}: the run that finished is number {n}; its records are {obs["records"]}'
+        return None
+
+    def nontrivial(self, case, obs):
+        return True
+
+    def key(self, case):
+        return repr(case)
+
+
 class C18(Prop):
     pid = 'C18'
-    suites = [Records(), RunBodies(), NamedConfigs()]
+    suites = [Records(), RunBodies(), NamedConfigs(), ResumableLogs()]
     assumptions = ['timestamps, user name, library version, class and module names are abstracted away',
                    'the framing lines of the log (run started / run ended) are abstracted: the messages logged by run '
                    'are the tokens']
